@@ -541,6 +541,70 @@ func routeTag(path string) string {
 	return path
 }
 
+// routeWords: the words the API itself is made of - path segments of the routes and the
+// names / values of their parameters.  Every one of them is also a VALID topic / channel
+// name and a harmless extra argument: a handler that looks for one of them anywhere but in
+// the route path or in its own parameter must not be fooled by a user-chosen string.
+var routeWords = []string{"pause", "unpause", "empty", "delete", "create", "topic", "channel", "binary", "defer", "format", "json",
+	"pub", "mpub", "stats", "true"}
+
+// the words that are segments of the admin routes: the full endpoint x position matrix
+var adminWords = []string{"pause", "unpause", "empty", "delete", "create", "topic", "channel", "binary"}
+
+func routeWordIn(s string) string {
+	l := strings.ToLower(s)
+	// longest first: "unpause" before "pause", "mpub" before "pub"
+	for _, w := range []string{"unpause", "pause", "empty", "delete", "create", "topic", "channel", "binary", "defer", "format", "json", "mpub", "pub", "stats", "true"} {
+		if strings.Contains(l, w) {
+			return w
+		}
+	}
+	return ""
+}
+
+// routeWordTags: coverage tags for requests whose user-chosen strings (topic name, channel
+// name, the key or the value of an argument the endpoint does not know) contain a route word.
+func routeWordTags(path string, pairs [][2]string, status int) []string {
+	var tags []string
+	seen := map[string]bool{}
+	add := func(pos, w string) {
+		for _, t := range []string{"routeword-in-" + pos, "routeword=" + w, fmt.Sprintf("routeword:%s:%s:%d", pos, routeTag(path), status)} {
+			if !seen[t] {
+				seen[t] = true
+				tags = append(tags, t)
+			}
+		}
+	}
+	known := map[string]bool{"topic": true, "channel": true, "defer": true, "binary": true, "format": true, "rate": true,
+		"include_clients": true, "include_mem": true}
+	for _, p := range pairs {
+		switch {
+		case p[0] == "topic" || p[0] == "channel":
+			if w := routeWordIn(p[1]); w != "" {
+				add(p[0]+"-name", w)
+			}
+		case !known[p[0]]:
+			if w := routeWordIn(p[0]); w != "" {
+				add("extra-key", w)
+			}
+			if w := routeWordIn(p[1]); w != "" {
+				add("extra-value", w)
+			}
+		}
+	}
+	// a parameter of another endpoint given to one that has no use for it
+	foreign := map[string][]string{"channel": {"/topic/", "/pub", "/mpub"}, "defer": {"/topic/", "/channel/", "/mpub"},
+		"binary": {"/topic/", "/channel/", "/pub"}, "format": {"/topic/", "/channel/", "/pub", "/mpub"}}
+	for _, p := range pairs {
+		for _, pre := range foreign[p[0]] {
+			if strings.HasPrefix(path, pre) && !(pre == "/pub" && strings.HasPrefix(path, "/pub/")) {
+				add("foreign-param", p[0])
+			}
+		}
+	}
+	return tags
+}
+
 // ------------------------------------------------------------------ route probes
 func runRoute(c *ctx, in Input) {
 	mr, ok := toModel(*in.Req)
@@ -604,6 +668,7 @@ func runReq(c *ctx, in Input) {
 	for _, t := range nameLenTags(mr.pairs) {
 		tags = append(tags, t, fmt.Sprintf("%s:%s:%d", t, routeTag(mr.path), obs.Status))
 	}
+	tags = append(tags, routeWordTags(mr.path, mr.pairs, obs.Status)...)
 	if strings.HasPrefix(mr.path, "/config/") && (in.Req.Method == "GET" || in.Req.Method == "PUT") {
 		tags = append(tags, fmt.Sprintf("config:%s:%s:%d", in.Req.Method, strings.TrimPrefix(mr.path, "/config/"), obs.Status))
 	}
@@ -885,6 +950,7 @@ func runPub(c *ctx, in Input) {
 	for _, t := range nameLenTags(mr.pairs) {
 		tags = append(tags, t, fmt.Sprintf("%s:%s:%d:tcp=%s", t, in.PubKind, obs.Status, tcode))
 	}
+	tags = append(tags, routeWordTags(mr.path, mr.pairs, obs.Status)...)
 	c.o.Emit(lib.Case{Name: in.Name, Coq: coq, Input: in, Tags: tags, Nontrivial: true,
 		Obs: map[string]interface{}{"status": obs.Status, "token": obs.Token, "tcp": tcode,
 			"http_enqueued": len(he.got) + len(he.defBody), "tcp_enqueued": len(te.got) + len(te.defBody), "http_created": he.created, "tcp_created": te.created}})
@@ -1161,6 +1227,14 @@ func runHostile(c *ctx, in Input) {
 const nameAlphabet = "abcdefghijklmnopqrstuvwxyzABCDEFGHIJKLMNOPQRSTUVWXYZ0123456789._-"
 
 func genValidName(r *lib.Rand) string {
+	if r.Chance(12) {
+		// a name built around one of the words the API is made of
+		n := wordName(r, routeWords[r.Intn(len(routeWords))])
+		if r.Chance(10) {
+			n += "#ephemeral"
+		}
+		return n
+	}
 	lens := []int{1, 2, 3, 5, 8, 32, 63, 64}
 	n := lens[r.Intn(len(lens))]
 	eph := r.Chance(12)
@@ -1365,6 +1439,10 @@ func buildQuery(r *lib.Rand, params [][2]string) string {
 	}
 	if r.Chance(10) {
 		parts = append(parts, "junk="+url.QueryEscape(string(nameAlphabet[r.Intn(26)])))
+	}
+	if r.Chance(10) {
+		// an argument nobody reads, made of a route word (never a key some endpoint does read)
+		parts = append(parts, wordExtra(r, routeWords[r.Intn(len(routeWords))], "topic", "channel", "defer", "binary", "format"))
 	}
 	if r.Chance(15) {
 		r2 := parts
@@ -1697,6 +1775,10 @@ func genPubs(r *lib.Rand, n int) []Input {
 		if rs.Framing == "badchunk" && r.Chance(70) {
 			rs.Framing = "chunked"
 		}
+		extra := ""
+		if r.Chance(10) {
+			extra = wordExtra(r, routeWords[r.Intn(len(routeWords))], "topic", "channel", "defer", "binary", "format")
+		}
 		path := "/pub"
 		if kind != "pub" {
 			path = "/mpub"
@@ -1705,11 +1787,234 @@ func genPubs(r *lib.Rand, n int) []Input {
 		for _, p := range params {
 			parts = append(parts, url.QueryEscape(p[0])+"="+url.QueryEscape(p[1]))
 		}
+		if extra != "" {
+			parts = append(parts, extra)
+		}
 		rs.Target = path
 		if len(parts) > 0 {
 			rs.Target += "?" + strings.Join(parts, "&")
 		}
 		ins = append(ins, Input{Kind: "pub", Name: fmt.Sprintf("pub-%d", k), PubKind: kind, Req: rs})
+	}
+	return ins
+}
+
+// wordName: a valid topic / channel name built around a route word.  The bare word is the
+// most frequent form: it meets a substring, a prefix, a suffix and an equality test alike.
+func wordName(r *lib.Rand, w string) string {
+	switch r.Intn(8) {
+	case 0:
+		return "auto_" + w + "_watcher"
+	case 1:
+		return w + "d.events"
+	case 2:
+		return "x-" + w
+	case 3:
+		return strings.ToUpper(w[:1]) + w[1:]
+	}
+	return w
+}
+
+// wordExtra: an argument no endpoint knows, with a route word as its key, inside its key, as
+// its value, or as a bare key without '=' - never exactly a key listed in [own] (parameters
+// the endpoint does read).
+func wordExtra(r *lib.Rand, w string, own ...string) string {
+	isOwn := false
+	for _, o := range own {
+		if o == w {
+			isOwn = true
+		}
+	}
+	form := r.Intn(6)
+	if isOwn && (form == 0 || form == 2 || form == 3) {
+		form = []int{1, 5, 5}[r.Intn(3)]
+	}
+	switch form {
+	case 5: // a longer key that ends in the word: "x_binary=true" is not "binary=true"
+		return "x_" + w + "=" + []string{"true", "1", "5", "c1"}[r.Intn(4)]
+	case 0:
+		return w + "=1"
+	case 1:
+		return "note=" + w
+	case 2:
+		return w
+	case 3:
+		return w + "=" + w
+	}
+	return "note=" + w + "-later"
+}
+
+// genRouteWords: names and extra arguments that contain the words the API is made of.
+// Every admin endpoint x every path word, with the word as the topic name, as the channel
+// name and in an argument the endpoint does not read, against a state in which the effect of
+// the endpoint (and of its opposite) is visible through /stats: the pause endpoints meet an
+// un-paused object, the unpause endpoints a paused one, the empty endpoints a non-empty one;
+// a second topic and a second channel, also named after route words, must stay as they are.
+// Parameters of other endpoints (channel= on /topic/*, binary= / defer= / format= on admin
+// endpoints and on the publish that has no use for them) likewise.  Every publish endpoint
+// under each word as the topic and with each word as an extra argument, with its TCP twin.
+// Fixed set of (endpoint, word, position); the form of the name / argument varies with the seed.
+func genRouteWords(r *lib.Rand) []Input {
+	var ins []Input
+	k := 0
+	req := func(method, target string, pre []TopicSpec) {
+		ins = append(ins, Input{Kind: "req", Name: fmt.Sprintf("word-%d", k), Pre: pre,
+			Req: &ReqSpec{Method: method, Target: target, Framing: "none"}})
+		k++
+	}
+	pub := func(kind, target string, body []byte) {
+		fr := "cl"
+		if k%3 == 0 {
+			fr = "chunked"
+		}
+		ins = append(ins, Input{Kind: "pub", Name: fmt.Sprintf("word-%d", k), PubKind: kind,
+			Req: &ReqSpec{Method: "POST", Target: target, Framing: fr, Body: body}})
+		k++
+	}
+	other := func(w string) string {
+		for {
+			o := adminWords[r.Intn(len(adminWords))]
+			if o != w {
+				return o
+			}
+		}
+	}
+	// the state an endpoint is tried against: target topic [t] with target channel [c] and a
+	// sibling channel, plus a sibling topic; paused flags chosen so that the endpoint's effect
+	// and its opposite's are both visible
+	mkState := func(path, t, c, w string, withT, withC bool) []TopicSpec {
+		paused := r.Bool()
+		switch {
+		case strings.HasSuffix(path, "/unpause"):
+			paused = !r.Chance(20)
+		case strings.HasSuffix(path, "/pause"):
+			paused = r.Chance(20)
+		case path == "/topic/empty":
+			paused = !r.Chance(20)
+		}
+		sib := other(w)
+		var st []TopicSpec
+		if withT {
+			ts := TopicSpec{Name: t}
+			if strings.HasPrefix(path, "/topic/") {
+				ts.Paused = paused
+			} else {
+				ts.Paused = r.Chance(30)
+			}
+			if ts.Paused {
+				ts.Depth = 2
+			}
+			if withC {
+				cs := ChanSpec{Name: c, Depth: 1 + r.Intn(2)}
+				if strings.HasPrefix(path, "/channel/") {
+					cs.Paused = paused
+				} else {
+					cs.Paused = r.Bool()
+				}
+				ts.Chans = append(ts.Chans, cs)
+			}
+			if sib != c {
+				ts.Chans = append(ts.Chans, ChanSpec{Name: sib, Paused: r.Bool(), Depth: 1})
+			}
+			st = append(st, ts)
+		}
+		sibT := "sib." + sib
+		if sibT != t {
+			sp := r.Bool()
+			sd := 0
+			if sp {
+				sd = 1
+			}
+			st = append(st, TopicSpec{Name: sibT, Paused: sp, Depth: sd, Chans: []ChanSpec{{Name: c, Paused: r.Bool(), Depth: 1}}})
+		}
+		return st
+	}
+	esc := url.QueryEscape
+	topicPaths := []string{"/topic/create", "/topic/delete", "/topic/empty", "/topic/pause", "/topic/unpause"}
+	chanPaths := []string{"/channel/create", "/channel/delete", "/channel/empty", "/channel/pause", "/channel/unpause"}
+	for _, p := range topicPaths {
+		for _, w := range adminWords {
+			t := wordName(r, w)
+			req("POST", p+"?topic="+esc(t), mkState(p, t, "c1", w, p != "/topic/create" || r.Bool(), true))
+			req("POST", p+"?topic=t1&"+wordExtra(r, w, "topic"), mkState(p, "t1", "c1", w, p != "/topic/create" || r.Bool(), true))
+		}
+		// parameters of other endpoints: the topic, not its channel, is the object
+		req("POST", p+"?topic=t1&channel=c1", mkState(p, "t1", "c1", "channel", true, true))
+		req("POST", p+"?channel=c1&topic=t1&"+[]string{"binary=true", "defer=5", "format=json"}[r.Intn(3)], mkState(p, "t1", "c1", "binary", true, true))
+		// a longer key that ends in the parameter's name, naming the sibling: not the parameter
+		st := mkState(p, "t1", "c1", "topic", true, true)
+		req("POST", p+"?x_topic="+esc(st[len(st)-1].Name)+"&topic=t1", st)
+	}
+	for _, p := range chanPaths {
+		for _, w := range adminWords {
+			t, c := wordName(r, w), wordName(r, w)
+			withC := p != "/channel/create" || r.Bool()
+			req("POST", p+"?topic="+esc(t)+"&channel=c1", mkState(p, t, "c1", w, true, withC))
+			req("POST", p+"?topic=t1&channel="+esc(c), mkState(p, "t1", c, w, true, withC))
+			if r.Bool() {
+				req("POST", p+"?topic=t1&channel=c1&"+wordExtra(r, w, "topic", "channel"), mkState(p, "t1", "c1", w, true, withC))
+			} else {
+				req("POST", p+"?"+wordExtra(r, w, "topic", "channel")+"&channel=c1&topic=t1", mkState(p, "t1", "c1", w, true, withC))
+			}
+		}
+		req("POST", p+"?topic=t1&channel=c1&"+[]string{"binary=true", "defer=5", "format=json"}[r.Intn(3)], mkState(p, "t1", "c1", "binary", true, true))
+		st := mkState(p, "t1", "c1", "channel", true, true)
+		sibC := st[0].Chans[len(st[0].Chans)-1].Name
+		req("POST", p+"?x_channel="+esc(sibC)+"&x_topic="+esc(st[len(st)-1].Name)+"&topic=t1&channel=c1", st)
+	}
+	// publishes
+	var bin bytes.Buffer
+	bin.Write(be32(2))
+	bin.Write(be32(1))
+	bin.WriteByte('m')
+	bin.Write(be32(2))
+	bin.WriteString("nn")
+	for _, w := range routeWords {
+		t := esc(wordName(r, w))
+		pub("pub", "/pub?topic="+t, []byte("x"))
+		pub("pub", "/pub?topic=t1&"+wordExtra(r, w, "topic", "defer"), []byte("one\ntwo"))
+		pub("pub", "/pub?topic="+t+"&defer=5", []byte("later"))
+		pub("mpub-text", "/mpub?topic="+t, []byte("one\ntwo\n"))
+		pub("mpub-text", "/mpub?topic=t1&"+wordExtra(r, w, "topic", "binary"), []byte("one\ntwo\n"))
+		if r.Bool() {
+			pub("mpub-binary", "/mpub?topic="+t+"&binary=true", bin.Bytes())
+		} else {
+			pub("mpub-binary", "/mpub?binary=true&"+wordExtra(r, w, "topic", "binary")+"&topic="+t, bin.Bytes())
+		}
+	}
+	// a parameter the publish has no use for: /pub knows no binary / channel / format, /mpub no defer
+	pub("pub", "/pub?topic=t1&binary=true", bin.Bytes())
+	pub("pub", "/pub?binary=true&topic=t1&defer=5", bin.Bytes())
+	pub("pub", "/pub?topic=t1&channel=c1", []byte("x"))
+	pub("pub", "/pub?topic=t1&format=json", []byte("x"))
+	pub("mpub-text", "/mpub?topic=t1&defer=5", []byte("one\ntwo\n"))
+	pub("mpub-text", "/mpub?topic=t1&channel=c1&format=json", []byte("one\ntwo\n"))
+	pub("mpub-text", "/mpub?topic=t1&binary=false&note=binary", []byte("one\ntwo\n"))
+	pub("mpub-binary", "/mpub?topic=t1&binary=true&defer=5", bin.Bytes())
+	// a longer key that ends in the parameter's name is not the parameter
+	pub("pub", "/pub?topic=t1&x_defer=5", []byte("now"))
+	pub("pub", "/pub?x_topic=t2&topic=t1", []byte("x"))
+	pub("mpub-text", "/mpub?topic=t1&x_binary=true", []byte("one\ntwo\n"))
+	pub("mpub-text", "/mpub?x_binary=1&topic=t1&x_topic=t2", []byte("one\ntwo\n"))
+	pub("mpub-binary", "/mpub?topic=t1&x_binary=false&binary=true", bin.Bytes())
+	// the read-only and configuration endpoints (status and liveness; /stats has no effect)
+	st := []TopicSpec{{Name: "pause", Paused: true, Depth: 1, Chans: []ChanSpec{{Name: "unpause", Depth: 1}}}, {Name: "json", Chans: []ChanSpec{{Name: "format", Paused: true, Depth: 2}}}}
+	for i, w := range routeWords {
+		n := esc(wordName(r, w))
+		switch i % 3 {
+		case 0:
+			req("GET", "/stats?format=json&topic="+n, st)
+			req("GET", "/config/"+n, nil)
+			req("GET", "/ping?"+wordExtra(r, w), st)
+		case 1:
+			req("GET", "/stats?topic=pause&channel="+n+"&"+wordExtra(r, w, "topic", "channel", "format"), st)
+			req("POST", "/debug/freememory?"+wordExtra(r, w), st)
+			req("GET", "/info?"+wordExtra(r, w), st)
+		default:
+			req("GET", "/stats?"+wordExtra(r, w, "topic", "channel", "format"), st)
+			req("PUT", "/debug/setblockrate?rate=0&"+wordExtra(r, w), st)
+			req("GET", "/config/log_level?"+wordExtra(r, w), nil)
+		}
 	}
 	return ins
 }
@@ -2045,6 +2350,7 @@ func main() {
 	ins = append(ins, genTLS(r.Fork())...)
 	ins = append(ins, genAdminMatrix(r.Fork())...)
 	ins = append(ins, genNameBoundary()...)
+	ins = append(ins, genRouteWords(r.Fork())...)
 	ins = append(ins, genConfigMatrix()...)
 	ins = append(ins, genReqs(r.Fork(), *n)...)
 	ins = append(ins, genPubBoundary()...)
